@@ -58,7 +58,7 @@ def find_def(repo, cls, name):
 
 def bits_rule(ctx, P='C28-BITS'):
     # ---------------------------------------------------------------- BITS
-    nb = 0
+    nb = nq = 0
     for fn in ctx.repo.rule_funcs():
         if fn.mod.name != 'pony.orm.core': continue
         stmts = list(walk_no_nested(fn.node))
@@ -89,7 +89,37 @@ def bits_rule(ctx, P='C28-BITS'):
             ctx.ob(P + '.write-bit-taken-from-the-full-bit-table', fn, a, ok,
                    '' if ok else 'the bit added to _wbits_ here comes from %s: for a volatile attribute that table holds 0, so an in-place change of a volatile Json/array '
                    'value does not mark the object modified and is never written' % (sorted(tabs) or 'an unrecognised source'), node=a, expected='obj._bits_[attr]')
+            # ... and the object is then queued for saving whatever persistent status it has: under each scenario status = loaded / inserted / updated
+            # (wbits is not None, the bit is not 0) every normal path from here to the exit passes `objects_to_save.append(obj)` -- an object that
+            # was already written once in this session ('updated') and is changed again must be written again
+            from ..typestate import scenario_edges
+            from ..q import value_atom, const_sets, cfg_node_of
+            g = ctx.cg.cfg(fn)
+            here = cfg_node_of(g, a, fn.node)
+            queues = nodes_calling(g, lambda c: isinstance(c.func, ast.Attribute) and c.func.attr == 'append' and 'objects_to_save' in norm(c.func.value))
+            if not here or not queues: continue
+            subj = None
+            for st in stmts:
+                if isinstance(st, ast.Assign) and isinstance(st.value, ast.Attribute) and st.value.attr == '_status_' and len(st.targets) == 1 and isinstance(st.targets[0], ast.Name):
+                    subj = dotted(st.value)
+            if subj is None: continue
+            sets = const_sets(fn.mod)
+            for val in ('loaded', 'inserted', 'updated'):
+                def other(text, node):
+                    if 'wbits' in text and text.endswith(' is None'): return False
+                    if 'wbits' in text and text.endswith(' is not None'): return True
+                    if isinstance(node, ast.Name) and node.id.startswith('bit'): return True
+                    return None
+                eo = scenario_edges(g, fn.node, value_atom(fn.node, subj, val, sets, other), resolve=False)
+                def eo_normal(x, y, lab, eo=eo): return lab != 'exc' and eo(x, y, lab)
+                esc = g.reach(here, avoid=queues, edge_ok=eo_normal)
+                ok = g.exit.id not in esc
+                nq += 1
+                ctx.ob(P + '.object-is-queued-after-a-write-bit-from-every-persistent-status', fn, a, ok,
+                       '' if ok else 'for an object whose status is %r a write bit is added here but a path reaches the end of %s without `objects_to_save.append(obj)`: the '
+                       'change stays in memory, no flush sees it and it is not written at commit' % (val, fn.name), node=a).key += '::' + val
     ctx.floor(P, nb, 3, 'statements adding bits to _wbits_')
+    ctx.floor(P, nq, 9, '(write-bit statement, persistent status) pairs')
 
 
 def run(ctx):
@@ -139,6 +169,35 @@ def run(ctx):
     ok = bool(ch) and bool(wrapped) and g.must_pass_after(g.entry, ch) and all(g.dominated(c, wrapped) for c in ch)
     ctx.ob('C28-WRAP.wrapper-calls-_changed_', nf, nf.node, ok,
            '' if ok else 'tracked_method wrapper can return without self._changed_() after the wrapped call')
+    # every container handed to the wrapped mutator is adopted first -- positional *and* keyword arguments, together: with a live owner, non-empty
+    # args and non-empty kwargs, whatever reaches `func(self, *args, **kwargs)` was produced by TrackedValue.make (d.update({...}, key=[...]))
+    from ..typestate import scenario_edges as _sce
+    from ..q import reaching_defs as _rd, value_of_def as _vod
+    def _given(text, node):
+        t_ = text.replace(' ', '')
+        if t_ == 'objisNone': return False
+        if t_ == 'objisnotNone': return True
+        if isinstance(node, ast.Name) and node.id in (getattr(nf.node.args.vararg, 'arg', None), getattr(nf.node.args.kwarg, 'arg', None)): return True
+        return None
+    eo_w = _sce(g, nf.node, _given, resolve=False)
+    nwr = 0
+    make_names = {t.id for st_ in walk_no_nested(nf.node) if isinstance(st_, ast.Assign) and isinstance(st_.value, ast.Attribute) and st_.value.attr == 'make' for t in st_.targets if isinstance(t, ast.Name)}
+    for wn in wrapped:
+        for c in wn.calls():
+            if dotted(c.func) != 'func': continue
+            passed = [a.value for a in c.args if isinstance(a, ast.Starred)] + [k.value for k in c.keywords if k.arg is None]
+            for e in passed:
+                if not isinstance(e, ast.Name): continue
+                nwr += 1
+                ds = _rd(g, wn, e.id, with_params=True, edge_ok=eo_w)
+                bad = [d for d in ds if d is g.entry or _vod(d, e.id) is None or not any(isinstance(k, ast.Call) and (isinstance(k.func, ast.Attribute) and k.func.attr == 'make' or isinstance(k.func, ast.Name) and k.func.id in make_names)
+                                                                                         for k in ast.walk(_vod(d, e.id)))]
+                ok = bool(ds) and not bad
+                ctx.ob('C28-WRAP.wrapper-adopts-positional-and-keyword-arguments', nf, c, ok,
+                       '' if ok else 'with a live owner and both positional and keyword arguments given, `%s` reaches the wrapped mutator as it came in (%s): a dict / list passed '
+                       'that way is stored untracked, later in-place changes of it are not written' % (e.id, 'parameter' if any(d is g.entry for d in bad) else norm(bad[0].ast)[:60] if bad else 'no definition'),
+                       node=wn.ast).key += '::' + e.id
+    ctx.floor('C28-WRAP', nwr, 2, 'starred arguments handed to the wrapped mutator')
     rets = [s for s in walk_no_nested(tm.node) if isinstance(s, ast.Return)]
     ok = len(rets) == 1 and dotted(rets[0].value) == 'new_func'
     ctx.ob('C28-WRAP.decorator-returns-wrapper', tm, rets[0] if rets else tm.node, ok, '' if ok else 'tracked_method does not return new_func')
@@ -374,6 +433,11 @@ def def_reaches_changed(ctx, cls, f, muts):
 MUTANTS = [
     dict(id='C28-lw', file='pony/orm/dbapiprovider.py', fn='ArrayConverter.dbval2val', old="        if obj is None or dbval is None:\n            return dbval", new="        if obj is None or not dbval:\n            return dbval", expect='C28-LOADWRAP'),
     dict(id='C28-oa1', file='pony/orm/core.py', fn='Attribute.db_set', old="attr.converters[0].dbval2val(new_dbval, obj)", new="attr.converters[0].dbval2val(new_dbval)", expect='C28-OWNERARG'),
+    dict(id='C28-kw1', file='pony/orm/ormtypes.py', fn='tracked_method', old="            if kwargs: kwargs =", new="            if kwargs and not args: kwargs =", expect='C28-WRAP.wrapper-adopts'),
+    dict(id='C28-kw2', file='pony/orm/ormtypes.py', fn='tracked_method', old="            if kwargs: kwargs = {key: TrackedValue.make(obj, attr, value) for key, value in kwargs.items()}", new="            kwargs = {key: TrackedValue.make(obj, attr, value) for key, value in kwargs.items()}", benign=True),
+    dict(id='C28-q1', file='pony/orm/core.py', fn='Entity._attr_changed_', old="            if status != 'modified':\n                assert status in ('loaded', 'inserted', 'updated')\n", new="            if status in ('loaded', 'inserted'):\n", expect='C28-BITS.object-is-queued'),
+    dict(id='C28-q2', file='pony/orm/core.py', fn='Attribute.__set__', old="                if status != 'modified':\n                    assert status in ('loaded', 'inserted', 'updated')\n", new="                if status == 'loaded' or status == 'updated':\n", expect='C28-BITS.object-is-queued'),
+    dict(id='C28-q3', file='pony/orm/core.py', fn='Entity._attr_changed_', old="            if status != 'modified':\n                assert status in ('loaded', 'inserted', 'updated')\n", new="            if status in ('loaded', 'inserted', 'updated'):\n", benign=True),
     dict(id='C28-b1', file='pony/orm/core.py', fn='Entity._attr_changed_', old="        bit = obj._bits_[attr]", new="        bit = obj._bits_except_volatile_[attr]", expect='C28-BITS'),
     dict(id='C28-m1', file='pony/orm/ormtypes.py', old='    popitem = tracked_method(dict.popitem)\n', new='', expect='TrackedDict.popitem'),
     dict(id='C28-m2', file='pony/orm/ormtypes.py', old='    sort = tracked_method(list.sort)\n', new='', expect='TrackedList.sort'),
